@@ -146,6 +146,26 @@ Theorem add_trait_is_faithful_iff_matched :
 Proof. exact Compose.add_trait_is_faithful_iff_matched. Qed.
 Print Assumptions add_trait_is_faithful_iff_matched.
 
+(* REFUTED without the interface hypothesis, the other way round (known finding, family `afterreset`: after `del obj.m`
+   the new default value is hooked twice, so a change of an item that has left the container is still delivered): a
+   delivery for a mutation that does NOT touch the observed view makes a cached getter run again between two relevant
+   changes, and the law reports it.  Witness: one listener, read, an untouched mutation delivered once. *)
+Theorem spurious_delivery_refuted :
+  exists (ops : list (op (Z * Z))),
+    let f := fun w : Z * Z => 3 * fst w + 1 in
+    let view := fun w : Z * Z => [fst w] in
+    let s0 := mkState (1, 0) None 1%nat in
+    ~ faithful_hist (Z * Z) f true view s0 ops
+    /\ map (fun p => o_getter (snd p)) (fst (run (Z * Z) f true s0 ops)) = [1%nat; 1%nat]
+    /\ law_hist true 0 (f (world s0)) 0 (listeners s0) (observe (Z * Z) f true view s0 ops) <> [].
+Proof.
+  exists [Read; Mut (1, 7) false 1]. cbn zeta. split; [|split].
+  - cbn [faithful_hist faithful]. intros [_ [[_ [H _]] _]]. specialize (H eq_refl). destruct H as [H _]. discriminate H.
+  - vm_compute. reflexivity.
+  - vm_compute. discriminate.
+Qed.
+Print Assumptions spurious_delivery_refuted.
+
 (* HISTORIES (Compose.ComposeHist): along any admissible C09 history -- registrations and removals of any handlers,
    scalar changes, Instance-link reassignments, in-place container mutations, add_trait -- interleaved with reads of
    the property and listeners coming and going, the interface hypothesis is a theorem, and hence the law, provided
